@@ -108,7 +108,8 @@ theorem tolerance_ge_one_breaks {t : K} (ht : 1 ≤ t) (maxSteps : Nat) :
   cases han : pipelineAnalyzer (exI : Model (Ext K)) (.fin t) maxSteps with
   | none => exact absurd han hne
   | some an =>
-    refine ⟨_, fun _ => 6, (compile_ok_iff _ _ _ _).mpr ⟨an, han, exI_lin _ _⟩, ?_, ?_⟩
+    refine ⟨_, fun _ => 6, (compile_ok_iff _ _ _ _).mpr ⟨scratchOK_frag (ext := true) _ _ (by simp [exI, frag])
+      (by intro c hc; simp [exI] at hc), an, han, exI_lin _ _⟩, ?_, ?_⟩
     · rw [hpub an han]
       have h1 : (lo : K) ≤ 6 := by exact_mod_cast (by omega : lo ≤ 6)
       have h2 : (6 : K) ≤ hi := by exact_mod_cast hhi
